@@ -18,7 +18,7 @@ use crate::rng::Rng;
 use crate::util::{hex, join, Out};
 use crate::Args;
 use std::sync::atomic::{AtomicUsize, Ordering};
-use std::sync::{Arc, Mutex};
+use std::sync::{Arc, Condvar, Mutex};
 use trust_hir::TypeId;
 use trust_runtime::debug::{DebugControl, RuntimeEvent};
 use trust_runtime::error::RuntimeError;
@@ -26,6 +26,7 @@ use trust_runtime::harness::TestHarness;
 use trust_runtime::io::{IoAddress, IoDriver, IoSafeState, IoSize, IoTarget};
 use trust_runtime::memory::IoArea;
 use trust_runtime::retain::RetainStore;
+use trust_runtime::scheduler::{Clock, ResourceRunner, ResourceState};
 use trust_runtime::RetainSnapshot;
 use trust_runtime::value::{Duration, Value};
 use trust_runtime::watchdog::{FaultPolicy, WatchdogAction, WatchdogPolicy};
@@ -93,6 +94,18 @@ pub struct Case {
     /// clock values (ns) at which the cycle runs with an execution deadline in the past
     pub expired_at: Vec<i64>,
     pub ops: Vec<OpSpec>,
+    /// after the history, hand the runtime to a `ResourceRunner` thread
+    pub runloop: Option<RunLoop>,
+}
+
+#[derive(Clone, Debug)]
+pub struct RunLoop {
+    pub interval_ms: i64,
+    pub wd_enabled: bool,
+    /// watchdog timeout of 1 ns (every cycle exceeds it) instead of one hour (none does)
+    pub over: bool,
+    /// iterations after which the clock blocks the thread until it is told to stop
+    pub budget: u64,
 }
 
 /// The global variables of every generated configuration: (name, IEC type, AT address or "").
@@ -211,6 +224,21 @@ fn gen_set(rng: &mut Rng, allow_pv: bool) -> Stmt {
         _ => *rng.pick(&[0i64, 1, -1, 127, -128, 128, -129, 200, -200]),
     };
     Stmt::Set(var, v)
+}
+
+/// A case whose history is short and ends in a `ResourceRunner` thread.
+pub fn gen_runner_case(rng: &mut Rng) -> Case {
+    let mut case = gen_case(rng);
+    let keep = 3 + rng.below(4) as usize;
+    case.ops.truncate(keep);
+    case.expired_at.clear();
+    case.runloop = Some(RunLoop {
+        interval_ms: 10,
+        wd_enabled: rng.chance(1, 2),
+        over: rng.chance(1, 2),
+        budget: 4 + rng.below(6),
+    });
+    case
 }
 
 pub fn gen_case(rng: &mut Rng) -> Case {
@@ -342,7 +370,8 @@ pub fn gen_case(rng: &mut Rng) -> Case {
     };
     expired_at.sort();
     expired_at.dedup();
-    Case { tasks, progs, drivers, retain, pubtrap, resize, expired_at, ops }
+    let runloop = None;
+    Case { tasks, progs, drivers, retain, pubtrap, resize, expired_at, ops, runloop }
 }
 
 fn addr(text: &str) -> IoAddress {
@@ -378,6 +407,7 @@ pub fn corpus() -> Vec<Case> {
             pubtrap: false,
             resize: Some((2, 17, 1)),
             expired_at: vec![],
+            runloop: None,
             ops,
         });
     }
@@ -405,6 +435,7 @@ pub fn corpus() -> Vec<Case> {
             pubtrap: false,
             resize: Some((2, 17, 1)),
             expired_at: vec![],
+            runloop: None,
             ops,
         });
     }
@@ -434,6 +465,7 @@ pub fn corpus() -> Vec<Case> {
             pubtrap: false,
             resize: Some((2, 17, 1)),
             expired_at: vec![],
+            runloop: None,
             ops,
         });
     }
@@ -457,7 +489,39 @@ pub fn corpus() -> Vec<Case> {
             pubtrap: true,
             resize: None,
             expired_at: vec![],
+            runloop: None,
             ops,
+        });
+    }
+    // 4: the thread's watchdog (every cycle exceeds a 1 ns timeout, action halt): one cycle runs,
+    //    then watchdog_timeout() -> safe image to both drivers -> thread ends in Faulted
+    out.push(Case {
+        tasks: vec![TaskSpec { interval_ms: 10, priority: 0 }],
+        progs: vec![tick_prog(Some(0), vec![Stmt::Set(2, 0x21)]), tick_prog(None, vec![Stmt::Set(3, 0xBEEF)])],
+        drivers: vec![DrvScript::default(), DrvScript { read_fail: vec![], write_fail: vec![1] }],
+        retain: None,
+        pubtrap: false,
+        resize: Some((2, 17, 1)),
+        expired_at: vec![],
+        ops: vec![
+            OpSpec::Wd(WatchdogAction::Halt),
+            OpSpec::Safe(vec![(addr("%QB0"), Value::Byte(0)), (addr("%QW2"), Value::Word(0xFFFF))]),
+        ],
+        runloop: Some(RunLoop { interval_ms: 10, wd_enabled: true, over: true, budget: 5 }),
+    });
+    // 5: fault policy restart: the program faults at its 2nd activation, the thread restarts warm
+    //    and keeps cycling (never Faulted); 6: same program under safe_halt: the thread ends
+    for policy in [FaultPolicy::Restart, FaultPolicy::SafeHalt] {
+        out.push(Case {
+            tasks: vec![],
+            progs: vec![tick_prog(None, vec![Stmt::Set(2, 0x31), Stmt::Trap(2, 2), Stmt::Set(2, 0x32)])],
+            drivers: vec![DrvScript::default()],
+            retain: None,
+            pubtrap: false,
+            resize: Some((2, 17, 1)),
+            expired_at: vec![],
+            ops: vec![OpSpec::Policy(policy), OpSpec::Safe(vec![(addr("%QB0"), Value::Byte(0xA5))])],
+            runloop: Some(RunLoop { interval_ms: 10, wd_enabled: false, over: false, budget: 6 }),
         });
     }
     out
@@ -591,6 +655,60 @@ impl IoDriver for LogDriver {
             return Err(RuntimeError::IoDriver(format!("w{}", self.idx).into()));
         }
         Ok(())
+    }
+}
+
+/// Deterministic clock for the `ResourceRunner` thread: `now()` returns the current value and
+/// advances by `step`; the call after `budget` calls blocks until `wake()` (sent by `stop()`).
+#[derive(Clone)]
+struct GateClock {
+    inner: Arc<(Mutex<GateState>, Condvar)>,
+    step: i64,
+    budget: u64,
+}
+
+#[derive(Default)]
+struct GateState {
+    time: i64,
+    calls: u64,
+    blocked: bool,
+    released: bool,
+}
+
+impl GateClock {
+    fn new(step: i64, budget: u64) -> Self {
+        GateClock { inner: Arc::new((Mutex::new(GateState::default()), Condvar::new())), step, budget }
+    }
+    fn calls(&self) -> u64 {
+        self.inner.0.lock().unwrap().calls
+    }
+    fn blocked(&self) -> bool {
+        self.inner.0.lock().unwrap().blocked
+    }
+}
+
+impl Clock for GateClock {
+    fn now(&self) -> Duration {
+        let (lock, cvar) = &*self.inner;
+        let mut st = lock.lock().unwrap();
+        if st.calls >= self.budget {
+            st.blocked = true;
+            while !st.released {
+                st = cvar.wait(st).unwrap();
+            }
+        }
+        st.calls += 1;
+        let t = st.time;
+        st.time += self.step;
+        Duration::from_nanos(t)
+    }
+    fn sleep_until(&self, deadline: Duration) {
+        self.inner.0.lock().unwrap().time = deadline.as_nanos();
+    }
+    fn wake(&self) {
+        let (lock, cvar) = &*self.inner;
+        lock.lock().unwrap().released = true;
+        cvar.notify_all();
     }
 }
 
@@ -1065,7 +1183,55 @@ pub fn run_case(n: u64, case: &Case, out: &mut Out) -> Result<(), String> {
         }
         out.line(run.observe(err.as_ref(), steps_before, restarted, changed));
     }
-    if fault_seen && refused_after_fault {
+    let mut runner_fault = false;
+    if let Some(rl) = &case.runloop {
+        let Running { h, control, shared, .. } = run;
+        let mut runtime = h.into_runtime();
+        let mut pol: WatchdogPolicy = runtime.watchdog_policy();
+        pol.enabled = rl.wd_enabled;
+        pol.timeout = if rl.over { Duration::from_nanos(1) } else { Duration::from_millis(3_600_000) };
+        runtime.set_watchdog_policy(pol);
+        let interval = rl.interval_ms * MS;
+        let clock = GateClock::new(interval, rl.budget);
+        let runner = ResourceRunner::new(runtime, clock.clone(), Duration::from_nanos(interval));
+        let mut handle = runner.spawn("c08").map_err(|e| format!("spawn: {e}"))?;
+        let started = std::time::Instant::now();
+        let mut timed_out = false;
+        loop {
+            if handle.state() == ResourceState::Faulted || clock.blocked() {
+                break;
+            }
+            if started.elapsed() > std::time::Duration::from_secs(30) {
+                timed_out = true;
+                break;
+            }
+            std::thread::sleep(std::time::Duration::from_micros(200));
+        }
+        handle.stop();
+        let _ = handle.join();
+        if timed_out {
+            // a starved machine must not turn into a finding: the operation is not recorded
+            out.count("runloop_timed_out");
+        } else {
+            let state = handle.state();
+            let err = handle.last_error();
+            let evs = {
+                let mut sh = shared.lock().unwrap();
+                drain_events(&control, &mut sh);
+                std::mem::take(&mut sh.log)
+            };
+            out.line(format!("runloop {interval} {} {} {}", u8::from(rl.wd_enabled), u8::from(rl.over), clock.calls()));
+            out.line(format!(
+                "impl state={state:?} err={} ev={}",
+                err.as_ref().map(canon_err).unwrap_or_else(|| "-".into()),
+                if evs.is_empty() { "-".to_string() } else { evs.join(",") }
+            ));
+            out.count("op_runloop");
+            out.count(&format!("runloop_end_{state:?}"));
+            runner_fault = state == ResourceState::Faulted;
+        }
+    }
+    if (fault_seen && refused_after_fault) || runner_fault {
         out.line("tag nontrivial");
     }
     out.line("end");
@@ -1080,7 +1246,11 @@ pub fn run(args: &Args) -> i32 {
             corpus[n as usize].clone()
         } else {
             let mut rng = Rng::for_case(args.seed, n);
-            gen_case(&mut rng)
+            if rng.chance(1, 6) {
+                gen_runner_case(&mut rng)
+            } else {
+                gen_case(&mut rng)
+            }
         };
         let res = std::panic::catch_unwind(std::panic::AssertUnwindSafe(|| run_case(n, &case, &mut out)));
         match res {
